@@ -199,6 +199,7 @@ func (v *Valuation) forget(b *ssa.BasicBlock) {
 type PathQuery struct {
 	Fn        *ssa.Function
 	From      ssa.Instruction                               // start right after this instruction with an empty valuation (nil: function entry)
+	FromFacts bool                                          // with From: start with the branch facts that dominate From's block (they hold whenever From executes)
 	Target    func(in ssa.Instruction, val *Valuation) bool // true: this arrival is a witness
 	Stop      func(in ssa.Instruction) bool                 // paths end here (optional)
 	MaxStates int
@@ -244,6 +245,16 @@ func (q PathQuery) Find() (*Witness, error) {
 		for i, in := range start.blk.Instrs {
 			if in == q.From {
 				start.first = i + 1
+			}
+		}
+		if q.FromFacts {
+			for _, f := range Facts(start.blk) {
+				t := start.val.term(f.Cond, 0)
+				if t.key == "true" {
+					continue
+				}
+				start.val.known[t.key] = f.True != t.neg
+				start.val.deps[t.key] = t.deps
 			}
 		}
 	}
